@@ -222,7 +222,23 @@ func C18(p *core.Program, r *core.Report) {
 					r.Check(l == nil, key+"/single-peer", "binary spray selects at most one peer per call (the bundle carries one block value)", p.Pos(a.Pos()), "", "the selection block can be reached again in the same call")
 				}
 				conds := core.DominatingConds(a.Block())
-				r.Check(atLeastTwoGuard(conds), key+"/needs-two-copies", "a peer is selected only while at least 2 copies remain (a node with one copy waits for the destination)", p.Pos(a.Pos()), "", "guard missing; "+condStrings(conds))
+				// a guard counts only if the budget cannot have been lowered between its evaluation and this
+				// selection: a test in front of the loop says nothing about the second peer of the same round
+				var fresh []core.Cond
+				for _, c := range conds {
+					stale := false
+					if c.If != nil {
+						for _, st := range stores {
+							if pathBetween(c.If, st, nil) && pathBetween(st, a, c.If) {
+								stale = true
+							}
+						}
+					}
+					if !stale {
+						fresh = append(fresh, c)
+					}
+				}
+				r.Check(atLeastTwoGuard(fresh), key+"/needs-two-copies", "a peer is selected only while at least 2 copies remain (a node with one copy waits for the destination); the test is evaluated after the last budget update that can precede the selection", p.Pos(a.Pos()), "", "no test 'remaining copies >= 2' is evaluated between the previous decrement and this selection (with k peers in reach in one round the node gives away its own last copy: L transmissions instead of L-1); guards in force: "+condStrings(fresh))
 			}
 			// no budget store without selection
 			for _, st := range stores {
